@@ -32,6 +32,8 @@ type Ctx struct {
 	Assume   []string
 	Explain  string
 	RuleDocs map[string]string
+	// thorough tier only: results of the variant battery (battery.go)
+	Sensitivity map[string]any
 }
 
 func (c *Ctx) seeFn(name string) {
@@ -262,6 +264,9 @@ func (c *Ctx) finish(verifDir string, wall float64, seed int64) int {
 		"assumptions": c.Assume,
 		"wall_s":      wall,
 		"violations":  nViol,
+	}
+	if c.Sensitivity != nil {
+		ev["coverage"].(map[string]any)["sensitivity"] = c.Sensitivity
 	}
 	data, _ := json.MarshalIndent(ev, "", " ")
 	os.MkdirAll(filepath.Join(verifDir, "evidence"), 0o755)
